@@ -13,7 +13,7 @@ THEOREMS = ["C09.spec_holds", "C09.runProg_spec", "C09.env_roundtrip", "C09.env_
             "EnvChan.sendline_rb", "EnvChan.rup_ok", "EnvChan.expect_ok"]
 LEAN_MODULES = ["TbotVerif.Props.C09"]
 QUICK_N, THOROUGH_N = 450, 12000
-QUICK_BUDGET, THOROUGH_BUDGET = 45, 1500
+QUICK_BUDGET, THOROUGH_BUDGET = 30, 1500
 CASE_WALL = 25
 RULE = ("test bodies of 1-7 steps per level, nesting depth 0-4 of `with m.subshell():` blocks (plain and wrapped in "
         "try/except), at every level: env set / env read / printenv-style probe through a helper program / cd / pwd / "
